@@ -99,6 +99,16 @@ def run_case(case: Dict[str, Any], ctx) -> None:
     key = f"C14:{'all-bits' if s == 23 - M else 'fewer-bits'}"
     if fmt.srbits != s:
         ctx.violation("C14:srbits-not-as-requested", f"format reports srbits={fmt.srbits}, requested {sr}", case=case)
+    # history: the same E/M used just before with another srbits / rounding mode (a stale per-format cache would show here)
+    try:
+        for other in ({1, 3, 23 - M} - {s}):
+            if 1 <= other <= 23 - M:
+                FPFormat(E, M, rounding="stochastic", srbits=other).quantise(torch.tensor([1.1, -0.37, 2.5e-3]))
+        FPFormat(E, M, rounding="nearest").quantise(torch.tensor([1.1, -0.37]))
+        ctx.count("history:primed-with-other-formats-of-same-E-M")
+    except Exception as e:
+        ctx.violation("C14:raises:" + exc_key(e), repr(e), case=case)
+        return
     x = _inputs(E, M, case["n_inputs"], case["seed"])
     n, D = x.numel(), 2**s
     calls: List[Any] = []
